@@ -176,7 +176,8 @@ func smsHistories(r *Run, corpus []histItem, nRandom int) {
 			show := fmt.Sprintf("smshist %s %s", smsHexOrDash(corpus[first].In), smsHexOrDash(corpus[x].In))
 			culprit := first
 			reproduced := false
-			if nMinimised < 12 { // candidates: the first element, the predecessor, then every other earlier element
+			isPanic := strings.HasPrefix(results[k][p], "panic") || strings.Contains(results[k][p], "marshal-panic")
+			if nMinimised < 12 || isPanic && nMinimised < 60 { // candidates: the first element, the predecessor, then every other earlier element
 				nMinimised++
 				cands := []int{first, pred}
 				seenC := map[int]bool{first: true, pred: true, x: true}
